@@ -75,6 +75,17 @@ def jobs(tier):
     for k in range(1, (8 if t else 6)):
         add('from_i64_d%d' % k, 'h_from_i64', ['C04', 'C01'], 24, _cls(k), 900, 'from_integer<int64_t>: sign, no leading zero, digits denote |v| exactly', 'all v with %d decimal digits, both signs' % k)
         add('from_u64_d%d' % k, 'h_from_u64', ['C04', 'C01'], 24, _cls(k), 900, 'from_integer<uint64_t>', 'all v with %d decimal digits' % k)
+    # narrow value windows at the boundaries the digit classes above do not reach (the full classes >= 8 digits do not finish on any back end):
+    # just below/above every power of ten, and the extreme values of the type
+    for k in range(6, 20):
+        lo = 10 ** k
+        if lo + 9 <= 2 ** 63:
+            add('from_i64_p10_%d' % k, 'h_from_i64', ['C04', 'C01'], 24, dict(LO='%dULL' % lo, HI='%dULL' % (lo + 9), ND=k + 1), 600, 'from_integer<int64_t> just above 10^%d' % k, '|v| in [10^%d, 10^%d+9], both signs' % (k, k))
+            add('from_i64_p10m_%d' % k, 'h_from_i64', ['C04', 'C01'], 24, dict(LO='%dULL' % (lo - 10), HI='%dULL' % (lo - 1), ND=k), 600, 'from_integer<int64_t> just below 10^%d' % k, '|v| in [10^%d-10, 10^%d-1], both signs' % (k, k))
+        add('from_u64_p10_%d' % k, 'h_from_u64', ['C04', 'C01'], 24, dict(LO='%dULL' % lo, HI='%dULL' % (lo + 9), ND=k + 1), 600, 'from_integer<uint64_t> just above 10^%d' % k, 'v in [10^%d, 10^%d+9]' % (k, k))
+    add('from_i64_extreme', 'h_from_i64', ['C04', 'C01'], 24, dict(LO='9223372036854775000ULL', HI='9223372036854775808ULL', ND=19), 600, 'from_integer<int64_t> at INT64_MIN / INT64_MAX', '|v| in [2^63-808, 2^63], both signs (includes INT64_MIN)')
+    add('from_u64_extreme', 'h_from_u64', ['C04', 'C01'], 24, dict(LO='18446744073709551000ULL', HI='18446744073709551615ULL', ND=20), 600, 'from_integer<uint64_t> at UINT64_MAX', 'v in [2^64-616, 2^64-1]')
+    add('from_i32_extreme', 'h_from_i32', ['C04'], 24, dict(LO='2147483000ULL', HI='2147483648ULL', ND=10), 600, 'from_integer<int32_t> at INT32_MIN / INT32_MAX', '|v| in [2^31-648, 2^31]')
     for k in range(1, 6):
         add('from_i16_d%d' % k, 'h_from_i16', ['C04'], 24, _cls(k), 600, 'from_integer<int16_t>', 'all int16 with %d digits' % k)
     for k in range(1, 4):
